@@ -711,7 +711,7 @@ fn update_stages(
             tf == touched_fn(module, *function), sound(gs0, global_stages@, stage, tf),
             forall|c: int| #[trigger] block_calls(&function.body, c) ==> callee_post(module, c, visited@, global_stages@, stage),
             forall|j: int, c: int| 0 <= j < it.index@ && #[trigger] expr_call(&exprs(function)[j], c) ==> callee_post(module, c, visited@, global_stages@, stage),
-            forall|j: int, g: int| 0 <= j < it.index@ && #[trigger] expr_global(&exprs(function)[j], g) && gname(module, g) is Some ==> has(global_stages@, gname(module, g)->0, stage),»
+            forall|j: int, g: int| 0 <= j < it.index@ && #[trigger] expr_global(&exprs(function)[j], g) && gname(module, g) is Some ==> has(global_stages@, gname(module, g)->0, stage), // [C03.fn-complete] [C02.fn-complete] [C13.fn-complete] every named global mentioned by an expression looked at so far carries `stage` - whatever its address space (push constants, private and workgroup variables included)»
     {
         «broadcast use axiom_arena_index_req, axiom_handle_key_model, axiom_mk_handle, vstd::std_specs::btree::group_btree_axioms, vstd::std_specs::hash::group_hash_axioms, vstd::laws_cmp::group_laws_cmp, axiom_string_obeys_cmp;
         proof { lemma_bits(); }
